@@ -166,7 +166,10 @@ def oracle(c, stats):
             fails.append("pair.%s: %s vs %s" % (k, S1[k], S2[k]))
     # the two runs linearise at slightly different points (datum shift of the approximate coordinates):
     # agreement is limited by gama's own linearisation criterion (0.0005 mm), not by rounding
-    if abs(S1["sum_of_squares"] - S2["sum_of_squares"]) > 2e-3 * S1["sum_of_squares"] + 1e-6:
+    # the two runs are linearised at different points and each stops within gama's criteria (0.0005 mm on an
+    # observation): d(v'Pv) ~ 2 sqrt(v'Pv) * (criterion / sigma), which dominates for almost error-free cases
+    vpv = max(S1["sum_of_squares"], 0.0)
+    if abs(S1["sum_of_squares"] - S2["sum_of_squares"]) > 2e-3 * vpv + 2e-3 * math.sqrt(vpv) + 1e-6:
         fails.append("pair.sum_of_squares: %r vs %r" % (S1["sum_of_squares"], S2["sum_of_squares"]))
     if len(x1["observations"]) != len(x2["observations"]):
         fails.append("pair.observation_count: %d vs %d" % (len(x1["observations"]), len(x2["observations"])))
